@@ -1,7 +1,7 @@
 //! verif-harness: generates cases and runs them on the implementation.
 //!   harness gen <PROP> --seed S --n N --tier quick|thorough   > cases
 //!   harness run <PROP> < cases                                > cases with OUT lines
-mod alloc; mod rng; mod tok; mod resp; mod srv; mod c20; mod c01;
+mod alloc; mod rng; mod tok; mod resp; mod srv; mod c20; mod c01; mod c09; mod c10;
 use std::io::{self, BufWriter, Write};
 
 #[global_allocator]
@@ -20,23 +20,25 @@ fn main() {
     let n: usize = arg(&args, "--n", "100").parse().unwrap_or(100);
     let tier = arg(&args, "--tier", "quick");
     std::panic::set_hook(Box::new(|_| {}));
-    let out = io::stdout(); let mut w = BufWriter::new(out.lock());
+    // rdb.rs prints with println!: C09/C10 write the case stream to a duplicate of fd 1
+    let mut w: Box<dyn Write> = if prop == "C09" || prop == "C10" { Box::new(BufWriter::new(c09::quiet_stdout())) }
+        else { Box::new(BufWriter::new(io::stdout())) };
     match mode {
         "gen" => {
-            let cases = match prop { "C20" => c20::gen(seed, n, &tier), "C01" => c01::gen(seed, n, &tier), _ => { eprintln!("no generator for {}", prop); std::process::exit(2) } };
+            let cases = match prop { "C20" => c20::gen(seed, n, &tier), "C01" => c01::gen(seed, n, &tier), "C09" => c09::gen(seed, n, &tier), "C10" => c10::gen(seed, n, &tier), _ => { eprintln!("no generator for {}", prop); std::process::exit(2) } };
             for c in &cases { tok::write_case(&mut w, c); }
         }
         "run" => {
             let cases = tok::read_cases(io::stdin().lock());
             for c in &cases {
-                let r = match prop { "C20" => c20::run(c), "C01" => c01::run(c), _ => { eprintln!("no runner for {}", prop); std::process::exit(2) } };
+                let r = match prop { "C20" => c20::run(c), "C01" => c01::run(c), "C09" => c09::run(c), "C10" => c10::run(c), _ => { eprintln!("no runner for {}", prop); std::process::exit(2) } };
                 tok::write_case(&mut w, &r);
             }
         }
         "judge" => {
             let cases = tok::read_cases(io::stdin().lock());
             for c in &cases {
-                let fails = match prop { "C20" => c20::judge(c, &c.outs), _ => vec![] };
+                let fails = match prop { "C20" => c20::judge(c, &c.outs), "C09" => c09::judge(c, &c.outs), "C10" => c10::judge(c, &c.outs), _ => vec![] };
                 for f in fails { writeln!(w, "{}", f).unwrap(); }
             }
         }
